@@ -348,6 +348,236 @@ class FindCodonReassignments(Contract):
 
 
 # ----------------------------------------------------------------------------
+# peptide-level modifications: leading M removal and selenocysteine termination (MiscleavedNodes.translational_modification)
+# ----------------------------------------------------------------------------
+class _Filtered:
+    """[v for v in variants if P(v)] over the symbolic variant list, then .append(...)"""
+    def __init__(self, view, P):
+        self.view, self.P, self.appended = view, P, []
+
+    def exists(self):
+        j = z3.Int('j_kept')
+        return z3.Exists([j], z3.And(0 <= j, j < self.view.length(), self.P(j)))
+
+    def sym_truth(self, I):
+        return True if self.appended else self.exists()
+
+    def sym_method(self, I, name, a, k):
+        if name == 'append':
+            self.appended.append(a[0])
+            return None
+        raise Unsupported(f'filtered variants .{name}')
+
+
+def _pstr_is(y, seq, lo, hi):
+    """y == seq[lo:hi]  (0 <= lo <= hi <= len(seq) established by the caller), as a formula with a free index"""
+    i = z3.Int('i_slice')
+    if not isinstance(y, PStr):
+        return z3.BoolVal(False)
+    ln = y.length()
+    ln = ln if is_z3(ln) else z3.IntVal(ln)
+    return z3.And(ln == hi - lo, z3.ForAll([i], z3.Implies(z3.And(0 <= i, i < hi - lo), y.get(i) == seq.get(lo + i))))
+
+
+@register
+class SecAndStartModification(Contract):
+    """what a joined (mis)cleaved peptide may turn into: the peptide itself and, at a start codon, the peptide without its leading M
+    (only when variants are present or not required) - and, for every selenocysteine at s, the peptide cut before s, with and without
+    the leading M; each form is yielded iff is_valid_seq accepts exactly that form (pool, denylist, size, X, mass: C04), Sec forms are
+    labelled with the variants that end before the Sec codon plus the SECT event itself and are skipped when external variants are
+    required and none is left; nothing else is yielded"""
+    path, qualname, props = VPD, 'MiscleavedNodes.translational_modification', ('C09', 'C04', 'C05')
+    assumptions = ('summary: MiscleavedNodes.is_valid_seq is its proved contract (C04 NodesIsValidSeq) seen as a predicate of the sequence',
+                   'assumed: create_variant_peptide_id is a function of the variants it is given; copy.copy of metadata is a new object',
+                   'the segment bookkeeping (node truncation loop, create_peptide_segments) is executed for a peptide of two nodes and is '
+                   'not part of the obligations (segments belong to C03, not claimed)')
+
+    def setup(self, I):
+        e = I.e
+        st = types.SimpleNamespace(yields=[], valid_calls=[], labels=[])
+        st.L = e.int('pep_len')
+        e.assume(st.L >= 1)
+        st.seq = PStr.sym(e, 'pep', st.L)
+        st.startM = st.seq.get(0) == ord('M')
+        st.is_start, st.check_variants, st.check_external = e.bool('is_start_codon'), e.bool('check_variants'), e.bool('check_external_variants')
+        st.nv, st.ns = e.int('n_variants'), e.int('n_selenocysteines')
+        e.assume(z3.And(st.nv >= 0, st.ns >= 0))
+        st.VE, st.S, st.SV = e.array('variant_end'), e.array('sec_offset_in_peptide'), e.array('sec_variant_start')
+        j = z3.Int('j_sec')
+        e.assume(z3.ForAll([j], z3.Implies(z3.And(0 <= j, j < st.ns), z3.And(0 <= st.S[j], st.S[j] < st.L))))
+        zz = lambda i: i if is_z3(i) else z3.IntVal(i)
+        st.variants = FnView(st.nv, lambda i: SymObj('VariantRecord', location=SymObj('FeatureLocation', end=st.VE[zz(i)]), _j=zz(i)), tag='variants')
+        st.secs = FnView(st.ns, lambda i: SymObj('VariantRecordWithCoordinate', location=SymObj('FeatureLocation', start=st.S[zz(i)]),
+                                                 variant=SymObj('VariantRecord', location=SymObj('FeatureLocation', start=st.SV[zz(i)]), _sec=zz(i))),
+                         tag='selenocysteines')
+        st.metadata = SymObj('VariantPeptideMetadata', label=None, has_variants=None, segments=None)
+        mk_node = lambda n: SymObj('PVGNode', seq=SymObj('AASeq', seq=PStr.sym(e, f'node{n}')))
+        st.nodes = [mk_node(0), mk_node(1)]
+        st.pool, st.denylist = SymObj('Pool'), SymObj('Denylist')
+        st.self = SymObj('MiscleavedNodes', tx_id='ENST_T', gene_id='ENSG_G')
+        st.args = [st.self, st.seq, st.metadata, st.denylist, st.variants, st.is_start, st.secs, st.check_variants, st.check_external, st.pool, st.nodes]
+        st.mark = (0, 0)
+        self._cur = st
+        return st
+
+    @property
+    def models(self):
+        c = self
+
+        def inst(reg):
+            def is_valid(I, o, a, k):
+                st = c._cur
+                I.e.prove('C04/mod/validity-checked-against-the-pool-and-denylist-given', a[1] is st.pool and a[2] is st.denylist)
+                b = I.e.bool('form_is_valid')
+                st.valid_calls.append((a[0], b))
+                return b
+            reg.method_('MiscleavedNodes', 'is_valid_seq', is_valid)
+
+            def copy_(I, a, k):
+                v = a[0]
+                if isinstance(v, SymObj) and v.cls == 'VariantPeptideMetadata':
+                    return SymObj('VariantPeptideMetadata', **{**v.fields, '_copy_of': v})
+                raise Unsupported(f'copy.copy({v!r})')
+            reg.ext_('copy.copy', copy_)
+
+            def set_guard(name):
+                def h(I, o, v):
+                    I.e.prove('C09/mod/given-metadata-not-modified', '_copy_of' in o.fields)
+                    o.fields[name] = v
+                return h
+            for nm in ('label', 'has_variants', 'segments', 'orf'):
+                reg._setattr[('VariantPeptideMetadata', nm)] = set_guard(nm)
+
+            def mk_label(I, a, k):
+                st = c._cur
+                I.e.prove('C09/mod/label-for-this-transcript', k.get('transcript_id') == 'ENST_T' and k.get('gene_id') == 'ENSG_G' and k.get('orf_id') is None)
+                lab = SymObj('Label', variants=k.get('variants'))
+                st.labels.append(lab)
+                return lab
+            reg.func_('moPepGen/aa/VariantPeptideIdentifier.py', 'create_variant_peptide_id', mk_label)
+            reg.method_('MiscleavedNodes', 'create_peptide_segments', lambda I, o, a, k: SymObj('Segments'))
+            reg.method_('PVGNode', 'copy', lambda I, o, a, k: SymObj('PVGNode', **o.fields))
+            reg.method_('PVGNode', 'truncate_left', lambda I, o, a, k: None)
+            reg.method_('PVGNode', 'truncate_right', lambda I, o, a, k: None)
+
+            def comp(I, node, env, view, kind):
+                st = c._cur
+                if view is not st.variants or kind != 'list' or len(node.generators[0].ifs) != 1:
+                    return None
+                g = node.generators[0]
+                from pyvc.interp import Env
+
+                def P(j):
+                    sub = Env({}, env)
+                    I.assign(g.target, view.get(j), sub)
+                    return as_bool(I.truth(I.eval(g.ifs[0], sub)))
+                return _Filtered(view, P)
+            reg.comprehension_hooks.append(comp)
+            reg.on_yield = c.on_yield
+        return (inst,)
+
+    def on_yield(self, I, frame, v):
+        st = self._cur
+        st.yields.append(v)
+        e = I.e
+        ok = isinstance(v, tuple) and len(v) == 2 and isinstance(v[0], PStr) and isinstance(v[1], SymObj)
+        e.prove('C09/mod/yields-a-sequence-with-metadata', ok)
+        if not ok:
+            return
+        y, md = v
+        # C04: whatever is yielded was accepted by is_valid_seq as exactly this sequence
+        i = z3.Int('i_same')
+        same = lambda a: z3.And((a.length() if is_z3(a.length()) else z3.IntVal(a.length())) == (y.length() if is_z3(y.length()) else z3.IntVal(y.length())),
+                                z3.ForAll([i], z3.Implies(z3.And(0 <= i, i < y.length()), a.get(i) == y.get(i))))
+        e.prove('C04/mod/every-yielded-sequence-was-accepted-by-is_valid_seq',
+                z3.Or(*[z3.And(b, same(a)) for a, b in st.valid_calls if isinstance(a, PStr)]) if st.valid_calls else False)
+        e.prove('C09/mod/yielded-metadata-is-a-labelled-copy', md.fields.get('_copy_of') is not None and md.fields.get('label') in st.labels
+                and md.fields.get('segments') is not None)
+
+    # ---- the selenocysteine loop
+    def head(self, I, env, k):
+        st = self._cur
+        st.mark = (len(st.yields), len(st.valid_calls), len(st.labels))
+
+    def forms(self, I, st, calls, lo_hi, label_ok, has_variants, skipped, tag):
+        """obligations shared by the plain block and one Sec iteration; calls = is_valid_seq calls made, yields accordingly"""
+        lo, hi = lo_hi
+        items = []
+        ys = st.cur_yields
+        startsM = z3.And(hi > 0, st.startM)
+        if skipped is not None and not calls:
+            items.append((f'{tag}/no-validity-test-only-when-nothing-can-be-reported', False))
+            return items
+        a0, b0 = calls[0]
+        items.append((f'{tag}/first-validity-test-is-on-the-form-itself', _pstr_is(a0, st.seq, lo, hi)))
+        if len(calls) > 1:
+            a1, b1 = calls[1]
+            items.append((f'{tag}/second-validity-test-is-on-the-form-without-its-leading-M', z3.And(st.is_start, startsM, _pstr_is(a1, st.seq, lo + 1, hi))))
+            vs = b1
+        else:
+            items.append((f'{tag}/M-removed-form-untested-only-if-not-a-start-codon-or-no-leading-M', z3.Not(z3.And(st.is_start, startsM))))
+            vs = z3.BoolVal(False)
+        items.append((f'{tag}/at-most-two-validity-tests', len(calls) <= 2))
+        want = z3.If(skipped, 0, z3.If(b0, 1, 0) + z3.If(vs, 1, 0)) if skipped is not None else z3.If(b0, 1, 0) + z3.If(vs, 1, 0)
+        items.append((f'{tag}/one-peptide-per-accepted-form-and-none-otherwise', len(ys) == want))
+        # which sequences
+        if len(ys) == 2:
+            items.append((f'{tag}/yields-the-form-then-the-form-without-M', z3.And(_pstr_is(ys[0][0], st.seq, lo, hi), _pstr_is(ys[1][0], st.seq, lo + 1, hi))))
+        elif len(ys) == 1:
+            items.append((f'{tag}/yields-the-accepted-form', z3.If(b0, _pstr_is(ys[0][0], st.seq, lo, hi), _pstr_is(ys[0][0], st.seq, lo + 1, hi))))
+        for y, md in ys:
+            lab = md.fields.get('label')
+            items.append((f'{tag}/label-names-the-right-events', label_ok(lab)))
+            items.append((f'{tag}/has_variants-flag', as_bool(I.truth(md.fields.get('has_variants'))) == has_variants))
+        return items
+
+    def step(self, I, env, k):
+        st = self._cur
+        ny, nc, nl = st.mark
+        st.cur_yields = st.yields[ny:]
+        calls = st.valid_calls[nc:]
+        s = st.S[k]
+        j = z3.Int('j_v')
+        kept = lambda jj: st.VE[jj] <= st.SV[k]
+        none_left = z3.Not(z3.Exists([j], z3.And(0 <= j, j < st.nv, kept(j))))
+        skipped = z3.And(st.check_variants, st.check_external, none_left)
+
+        def label_ok(lab):
+            vs = lab.fields.get('variants') if isinstance(lab, SymObj) else None
+            if not isinstance(vs, _Filtered) or vs.view is not st.variants or len(vs.appended) != 1:
+                return False
+            sv = vs.appended[0]
+            if not (isinstance(sv, SymObj) and '_sec' in sv.fields):
+                return False
+            return z3.And(sv.fields['_sec'] == k, z3.ForAll([j], z3.Implies(z3.And(0 <= j, j < st.nv), vs.P(j) == kept(j))))
+        return self.forms(I, st, calls, (0, s), label_ok, z3.BoolVal(True), skipped, 'C09/sec')
+
+    @property
+    def loops(self):
+        T = lambda I, env, k: []
+        # locals of the plain block that the Sec loop rebinds are 'initial or stale' inside the loop (engine: InitOrStale)
+        return {0: LoopSpec(inv=T, havoc=lambda I, env, k: None, on_head=self.head, step=self.step)}
+
+    def post_return(self, I, st, ret):
+        # the plain block = everything before the first Sec iteration; obligations are generated on the exit path of the Sec loop,
+        # where exactly the plain block has run (the arbitrary iteration ends its own path)
+        e = I.e
+        ny, nc, nl = st.mark if st.mark != (0, 0) else (len(st.yields), len(st.valid_calls), len(st.labels))
+        st.cur_yields = st.yields[:ny]
+        calls = st.valid_calls[:nc]
+        enabled = z3.Or(st.nv > 0, z3.Not(st.check_variants))
+        if not calls:
+            e.prove('C09/plain/untested-only-when-variants-are-required-and-absent', z3.And(z3.Not(enabled), len(st.cur_yields) == 0))
+            return
+
+        def label_ok(lab):
+            return isinstance(lab, SymObj) and lab.fields.get('variants') is st.variants
+        e.prove('C09/plain/tested-only-when-variants-are-present-or-not-required', enabled)
+        for nm, g in self.forms(I, st, calls, (0, st.L), label_ok, st.nv > 0, None, 'C09/plain'):
+            e.prove(nm, g)
+
+
+# ----------------------------------------------------------------------------
 # sequence-level W>F reassignment (VariantPeptideDict.translational_modification)
 # ----------------------------------------------------------------------------
 class _Reassignments(View):
